@@ -304,6 +304,15 @@ def noReset (progs : List Prog) : Prop := ∀ p ∈ progs, p ≠ Prog.reset
 instance (progs : List Prog) : Decidable (noReset progs) :=
   inferInstanceAs (Decidable (∀ p ∈ progs, p ≠ Prog.reset))
 
+/-- the sequential call (C14's `Op`) a thread program stands for -/
+def Prog.toOp : Prog → Op
+  | .build c p => .build c p
+  | .lookup .types q => .findTypes q
+  | .lookup .last q => .findType q
+  | .lookup (.sub c) q => .findSubclass c q
+  | .scan names => .findTypeByFields names
+  | .reset => .reset
+
 /-- what the thread returns when it runs alone on a fresh context -/
 def Prog.alone (U : Universe) (w : World) : Prog → Out
   | .build c p => outMeta (pureBuild U c p)
